@@ -2,7 +2,6 @@ package checks
 
 import (
 	"fmt"
-	"math/rand"
 	"os"
 	"testing"
 )
@@ -13,9 +12,6 @@ func TestDumpC05Source(t *testing.T) {
 	}
 	var i int
 	fmt.Sscan(os.Getenv("C05_DUMP"), &i)
-	pr := rand.New(rand.NewSource(int64(Seed()*7919 + i)))
-	p := c05Params{seed: Seed()*100000 + i, rsize: []int{8, 16}[pr.Intn(2)], nregs: 2 + pr.Intn(3), nin: pr.Intn(3), nout: 1 + pr.Intn(2),
-		nlines: 6 + pr.Intn(9), nmacros: pr.Intn(3), entryLater: i%6 == 5}
-	p.doubleMacro = p.nmacros > 0 && i%6 == 2
+	p := c05ParamsFor(i)
 	fmt.Println(c05Source(p))
 }
